@@ -171,5 +171,11 @@ def outY (s : Strategy) (pw : K → K) (x y : Nat → K) (m n : Nat) (w : Window
   | .expFixed => expOut pw X Y m n w false
   | .expAdaptive => expOut pw X Y m n w true
 
+/-- `<Strategy>(x, y, n, …).rfa()` for windows given: the constructor rejects `n < 2`
+(`AbstractRFA.__init__`, lines 50-55); the result is the pair of series of length `outLen m n` -/
+def run (s : Strategy) (pw : K → K) (x y : Nat → K) (m n : Nat) (w : Windows) :
+    Except Err ((Nat → K) × (Nat → K)) :=
+  if n < 2 then .error .valueError else .ok (outX x m n, outY s pw x y m n w)
+
 end Rfa
 end TWV
